@@ -2,8 +2,9 @@
    (bin2bn = big-endian decode, add, sub, mod_exp a e m = a^e mod m, mod_mul, num_bits/num_bytes,
    bn2bin = minimal big-endian encoding of the magnitude).  The model is parametric in
      - the constants of the C source (record [dh_params], instantiated from Gen.Repo_dhdrbg), and
-     - the implementation of modular exponentiation ([modexp_Z] for the theorems; the BigN
-       evaluator of DhEval.v for the correspondence run, connected by a proved bridge lemma).
+     - the implementation of modular exponentiation and multiplication ([modexp_Z], [bn_mod_mul]
+       for the theorems; the BigN evaluators of DhEval.v for the correspondence run, connected
+       by proved bridge lemmas).
    No proofs in this file. *)
 From Coq Require Import ZArith NArith List Bool.
 From LCP Require Import Gen.Repo_dhdrbg.
@@ -17,7 +18,7 @@ Definition be_decode (l : list N) : Z :=
 Fixpoint be_encode (n : nat) (v : Z) : list N :=
   match n with
   | O => []
-  | S k => be_encode k (v / 256) ++ [Z.to_N (v mod 256)]
+  | S k => be_encode k (Z.shiftr v 8) ++ [Z.to_N (Z.land v 255)]     (* v / 256, v mod 256 *)
   end.
 
 Definition byte_okb (b : N) : bool := N.ltb b 256.
@@ -79,6 +80,7 @@ Fixpoint add_times (n : nat) (x d : Z) : Z :=
 Section Model.
   Variable P : dh_params.
   Variable modexp : Z -> Z -> Z -> Z.          (* BN_mod_exp(r, a, e, m, ctx) *)
+  Variable modmul : Z -> Z -> Z -> Z.          (* BN_mod_mul(r, a, b, m, ctx) *)
 
   Definition modulus : Z := bn_bin2bn (p_group14 P) (p_modlen P).
 
@@ -101,7 +103,7 @@ Section Model.
       let m_bn := modulus in
       let r1 := modexp a blinding_bn m_bn in
       let r2 := modexp a priv_blinded m_bn in
-      let r1 := bn_mod_mul r1 r2 m_bn in
+      let r1 := modmul r1 r2 m_bn in
       let rlen := bn_num_bytes r1 in
       if rlen <? 0 then None
       else if rlen >? Z.of_nat outlen then None
